@@ -385,13 +385,13 @@ func guardedFields(c *check.Ctx, db *lockDB, p *packages.Package, typeName strin
 // lock sets with inheritance through synchronous callbacks and "requires lock" closures
 
 type heldDB struct {
-	db      *lockDB
-	m       *model.Model
-	entry   map[ast.Node]lockset.Set
-	results map[ast.Node]*lockset.Result
-	busy    map[ast.Node]bool
-	calls   map[types.Object][]callRef // calls through local variables
-	valueUses map[types.Object]int     // uses of a closure variable other than calling it
+	db        *lockDB
+	m         *model.Model
+	entry     map[ast.Node]lockset.Set
+	results   map[ast.Node]*lockset.Result
+	busy      map[ast.Node]bool
+	calls     map[types.Object][]callRef // calls through local variables
+	valueUses map[types.Object]int       // uses of a closure variable other than calling it
 }
 
 func newHeldDB(m *model.Model) *heldDB {
@@ -550,3 +550,10 @@ func (h *heldDB) heldNorm(p *packages.Package, n ast.Node) lockset.Set {
 	}
 	return s
 }
+
+// lockResult analyses one function node with an empty entry set.
+func lockResult(p *packages.Package, fn ast.Node) *lockset.Result {
+	return lockset.Analyze(p.TypesInfo, fn, funcBody(fn), nil)
+}
+
+func lockShort(k string) string { return lockset.Short(k) }
